@@ -55,6 +55,8 @@ def run(ctx):
            bool(scans), closures=[c.name for c in strict])
     if scans:
         ctx.guard('C16.r1', T, strict_scan, 'None', tsinks, unconditional=False, gname='transactions().find_map(strict verify error)')
+    from rules.C02 import witnesses_authenticated
+    witnesses_authenticated(ctx, 'C16.r1')
     # proof requests go to proven peers
     for fn in ('Peers::update_blocks_proof_request', 'Peers::update_txs_proof_request'):
         for caller in P.callers_of(fn):
